@@ -344,9 +344,11 @@ def factsTag (f : String) : List String :=
   if f == "ok" then [] else
   ((f.drop 4).toString.splitOn ",").map fun x =>
     if x.startsWith "CALL-AFTER-RETURN" then "C06:" ++ x
-    else if x.startsWith "REPLAYER-USED-AFTER-PANIC" then "C17:" ++ x
+    else if x.startsWith "REPLAYER-USED-AFTER-PANIC" || x.startsWith "REJECTED-WITHOUT-REPLAY-ERROR"
+      || x.startsWith "REGISTERED-DESPITE-REPLAY-ERROR" then "C17:" ++ x
     else if x.startsWith "SEND-WITHOUT-FLUSH" || x.startsWith "STRAY-FLUSH" then "C03:" ++ x
     else if x.startsWith "UNKNOWN-MESSAGE" then "C04:" ++ x
+    else if x.startsWith "CALLER-MESSAGE-MODIFIED" then "C19:" ++ x
     else "C07:" ++ x
 
 def joe (args : List String) : String × String :=
